@@ -276,8 +276,9 @@ def C01(ctx):
             diff = [fields[k] for k in range(8) if e["digest"][k] != c["digest"][k]]
             pr, pc = plan_by[e["run"]], plan_by[c["run"]]
             dims = [d for d in ("diag", "cache", "threads", "proc") if pr[d] != pc[d]] or ["thread"]
-            ctx.violation("determinism:%s:%s" % ("+".join(diff), "+".join(dims)),
-                          "transaction %d (%s): %s differ between run %s and run %s" % (e["i"], e["label"], diff, pc, pr),
+            family = re.sub(r"\d+", "", e["label"])        # e.g. consensus:round, gen:resources, radiswap:...
+            ctx.violation("determinism:%s:%s" % ("+".join(diff), family),
+                          "transaction %d (%s): %s differ between run %s and run %s (differing in %s)" % (e["i"], e["label"], diff, pc, pr, dims),
                           {"transaction": e["label"], "i": e["i"], "observation": e, "canonical": c, "run": pr, "canonical_run": pc,
                            "workload": {"scen": scen, "gen": gen}})
         total_obs += len(evs)
@@ -292,8 +293,10 @@ def C01(ctx):
             if b != [k]:
                 raise ToolError("binding self-test failed: %s (expected [%d])" % (b, k))
     return {"exhaustive": False, "distinct_nontrivial": total_obs, "runs": runs_done, "transactions": total_tx, "observations": total_obs,
-            "rule": "TLC enumerates the run plan (quick: 16 points; thorough: all 128 points of diag-subset x cache x threads x process); the "
-                    "harness executes the same transaction sequence (repository scenarios at the latest protocol version + generated "
+            "rule": "TLC enumerates the run plan (quick: 16 points incl. 5 fresh processes; thorough: all 128 points of diag-subset x cache x "
+                    "threads x process); the harness executes the same transaction sequence (a consensus part: genesis with 5 staked "
+                    "validators, fee-paying round changes with made/missed proposals, 4 epoch changes with emissions and rewards, "
+                    "stake-to-all-validators transactions; repository scenarios at the latest protocol version + generated "
                     "transactions creating many vaults / non-fungible ids / metadata entries at once + failing, unauthorised and rejected "
                     "transactions) from a fresh ledger under every run (4 threads = 4 concurrent copies sharing the code cache; fresh = child "
                     "process) and records per transaction the hashes of the SBOR-encoded outcome, state updates, events, fee summary, "
